@@ -463,8 +463,8 @@ func (w *vWorld) execCertPolicy(c map[string]interface{}) (map[string]interface{
 		case "kmcert":
 			q.Chains = w.verifiedChains(vMakeCert(vCertOpts{CN: norm, Parent: w.caCert(), ParentKey: vCAKey,
 				NotBefore: time.Unix(authAt, 0), NotAfter: time.Now().Add(time.Hour)}))
-		case "ipcert":
-			q.Chains = w.verifiedChains(w.roleCert(norm, vNetblocks()))
+		case "ipcert", "ipcert_long":
+			q.Chains = w.verifiedChains(w.roleCertFor(norm, vNetblocks(), vRoleLifetime(cred)))
 			q.Remote = vInsideAddr
 			authAt = tBefore
 		}
@@ -479,7 +479,7 @@ func (w *vWorld) execCertPolicy(c map[string]interface{}) (map[string]interface{
 		authAt = tBefore
 	case "refresh":
 		q.Path = "/v1/refreshRoleRequestingCert"
-		q.Chains = w.verifiedChains(w.roleCert(norm, vNetblocks()))
+		q.Chains = w.verifiedChains(w.roleCertFor(norm, vNetblocks(), vRoleLifetime(cred)))
 		q.Remote = vInsideAddr
 		form.Set("pubkey", keyText)
 		q.Form = form
@@ -638,4 +638,11 @@ func runC10(t *testing.T, cases []map[string]interface{}, ev *vEvents) {
 			"cred": cr, "age": 0, "target": "self", "world": "plain", "ext": []interface{}{}, "authok": true, "authrel": 0})
 	}
 	runCertPolicy(t, cases, ev)
+}
+
+func vRoleLifetime(cred string) time.Duration {
+	if cred == "ipcert_long" {
+		return 365 * 24 * time.Hour
+	}
+	return time.Hour
 }
